@@ -5,6 +5,7 @@ package c13
 import (
 	"fmt"
 	"reflect"
+	"regexp"
 	"runtime"
 	"sort"
 	"strings"
@@ -173,6 +174,182 @@ func (r vfMQTTReq) Context() *context.Context {
 	return ctx
 }
 
+// ------------------------------------------------------------------------------ requests aimed at a Proxy pool
+
+// vfStringMatches mirrors the documented semantics of a Proxy StringMatcher tree
+// (exact | prefix | regex | empty). It is only used to *aim* requests, never as an oracle.
+func vfStringMatches(m map[string]interface{}, v string) bool {
+	if e, _ := m["empty"].(bool); e && v == "" {
+		return true
+	}
+	if s, _ := m["exact"].(string); s != "" && v == s {
+		return true
+	}
+	if s, _ := m["prefix"].(string); s != "" && strings.HasPrefix(v, s) {
+		return true
+	}
+	if s, _ := m["regex"].(string); s != "" {
+		if re, err := regexp.Compile(s); err == nil && re.MatchString(v) {
+			return true
+		}
+	}
+	return false
+}
+
+// vfSatisfy returns a value the matcher tree accepts (ok=false when none of the candidates does).
+func vfSatisfy(m map[string]interface{}, path bool) (string, bool) {
+	ex, _ := m["exact"].(string)
+	pre, _ := m["prefix"].(string)
+	cands := []string{ex, pre, "/a", "v1", "/status/500", "/status", "x1", "a", "/", ""}
+	for i, c := range cands {
+		if c == "" && i < 2 {
+			continue
+		}
+		if path && !strings.HasPrefix(c, "/") {
+			continue
+		}
+		// "" is tried last: for a header matcher it means "header absent"
+		if vfStringMatches(m, c) {
+			return c, true
+		}
+	}
+	return "", false
+}
+
+// vfWeightsClass describes the weight vector of a generated pool tree.
+func vfWeightsClass(pool map[string]interface{}) string {
+	svs, _ := pool["servers"].([]interface{})
+	if len(svs) == 0 {
+		return "no-servers"
+	}
+	pos, zero, neg := 0, 0, 0
+	for _, s := range svs {
+		sm, _ := s.(map[string]interface{})
+		w, _ := sm["weight"].(int)
+		switch {
+		case w > 0:
+			pos++
+		case w < 0:
+			neg++
+		default:
+			zero++
+		}
+	}
+	switch {
+	case pos == len(svs):
+		return "positive"
+	case pos > 0:
+		return "positive-and-non-positive"
+	case neg == 0:
+		return "all-zero"
+	case zero == 0:
+		return "all-negative"
+	}
+	return "non-positive-mixed"
+}
+
+func vfPoolClass(pool map[string]interface{}) string {
+	lb := ""
+	if l, ok := pool["loadBalance"].(map[string]interface{}); ok {
+		lb, _ = l["policy"].(string)
+	}
+	if lb != "weightedRandom" {
+		lb = "other" // only weightedRandom reads the weights
+	}
+	return "lb=" + lb + " weights=" + vfWeightsClass(pool)
+}
+
+// vfAimAtPool rewrites a generated request so that it satisfies the filter of one of the Proxy's
+// filtered pools (a candidate pool or the mirror pool): candidate pools are only reached by
+// requests matching their filter, which independent request generation does rarely. Returns the
+// class of the pool aimed at ("" = request left alone).
+func vfAimAtPool(rt *rapid.T, tree map[string]interface{}, r *vfHTTPReq) string {
+	type target struct {
+		role string
+		pool map[string]interface{}
+	}
+	var ts []target
+	pools, _ := tree["pools"].([]interface{})
+	for _, p := range pools {
+		if pm, ok := p.(map[string]interface{}); ok {
+			if _, has := pm["filter"].(map[string]interface{}); has {
+				ts = append(ts, target{"candidate", pm})
+			}
+		}
+	}
+	if mp, ok := tree["mirrorPool"].(map[string]interface{}); ok {
+		if _, has := mp["filter"].(map[string]interface{}); has {
+			ts = append(ts, target{"mirror", mp})
+		}
+	}
+	if len(ts) == 0 || !vfChance(rt, "aim-at-pool", 60) {
+		return ""
+	}
+	tg := ts[vfUniform(rt, "aim-at-pool-i", len(ts))]
+	f := tg.pool["filter"].(map[string]interface{})
+	pol, _ := f["policy"].(string)
+	if pol == "" || pol == "general" {
+		hm, _ := f["headers"].(map[interface{}]interface{})
+		keys := make([]string, 0, len(hm))
+		for k := range hm {
+			keys = append(keys, fmt.Sprint(k))
+		}
+		sort.Strings(keys)
+		for _, k := range keys {
+			mm, ok := hm[k].(map[string]interface{})
+			if !ok {
+				continue
+			}
+			v, ok := vfSatisfy(mm, false)
+			if !ok {
+				continue
+			}
+			kept := r.Hdr[:0:0]
+			for _, h := range r.Hdr {
+				if !strings.EqualFold(h[0], k) {
+					kept = append(kept, h)
+				}
+			}
+			r.Hdr = kept
+			if strings.EqualFold(k, "Authorization") {
+				r.Auth = "none"
+			}
+			if v != "" {
+				r.Hdr = append(r.Hdr, [2]string{k, v})
+			}
+		}
+		if us, _ := f["urls"].([]interface{}); len(us) > 0 {
+			if um, ok := us[vfUniform(rt, "aim-at-url-i", len(us))].(map[string]interface{}); ok {
+				if ms, _ := um["methods"].([]interface{}); len(ms) > 0 {
+					if s, ok := ms[0].(string); ok && s != "" {
+						r.Method = s
+					}
+				}
+				if mm, ok := um["url"].(map[string]interface{}); ok {
+					if v, ok := vfSatisfy(mm, true); ok {
+						r.Path = v
+					}
+				}
+			}
+		}
+	}
+	return "pool=" + tg.role + " " + vfPoolClass(tg.pool)
+}
+
+// vfMainOnlyClass is the pool class of a Proxy whose only pool is the main pool ("" otherwise):
+// every request is routed to it.
+func vfMainOnlyClass(tree map[string]interface{}) string {
+	pools, _ := tree["pools"].([]interface{})
+	if len(pools) != 1 {
+		return ""
+	}
+	pm, ok := pools[0].(map[string]interface{})
+	if !ok {
+		return ""
+	}
+	return "pool=main-only " + vfPoolClass(pm)
+}
+
 // ------------------------------------------------------------------------------ the check
 
 // vfEnvironmental reports panics that only say that an external system is unreachable.
@@ -232,6 +409,7 @@ func TestVerifC13Filters(t *testing.T) {
 		spec, err := filters.NewSpec(env.super, "pl1", raw)
 		if err != nil {
 			vf.Class("rejected", "rejected kind="+kindName)
+			vfClassCrossRefBounds(vf, "rejected-with ", g)
 			if os.Getenv("VF_C13_REASONS") != "" {
 				fmt.Printf("REASON %s: %s\n", kindName, strings.ReplaceAll(err.Error(), "\n", " | "))
 				if os.Getenv("VF_C13_REASONS") == kindName {
@@ -284,6 +462,13 @@ func TestVerifC13Filters(t *testing.T) {
 				ctx, desc, class = r.Context(), r.String(), r.Class()
 			} else {
 				r := vfGenHTTPReq(rt, true)
+				if kindName == "Proxy" {
+					if aimed := vfAimAtPool(rt, tree, &r); aimed != "" {
+						vf.Class("proxy-request-aimed-at "+aimed)
+					} else if mc := vfMainOnlyClass(tree); mc != "" {
+						vf.Class("proxy-request-to " + mc)
+					}
+				}
 				c, ok := r.Context(env)
 				if !ok {
 					vf.Class("request-rejected-by-server")
@@ -343,6 +528,16 @@ func TestVerifC13Filters(t *testing.T) {
 			return map[string]interface{}{"kind": kindName, "spec": text, "requests": reqClasses}
 		})
 	})
+}
+
+// vfClassCrossRefBounds counts the cross-reference / weight-vector classes of a generated spec
+// under the given prefix (used for rejected specs, whose other bounds are not counted).
+func vfClassCrossRefBounds(vf *vfCollector, prefix string, g *vfG) {
+	for _, b := range g.Bounds() {
+		if strings.HasPrefix(b, "policyref:") || strings.HasPrefix(b, "loadbalance:") {
+			vf.Class(prefix + b)
+		}
+	}
 }
 
 func vfIn(s string, l []string) bool {
